@@ -9,6 +9,15 @@ Line protocol of the C35 model (doubles are the 16 hex digits of their IEEE bits
   body <n> { <type> <shell> <usemass> <massOrDensity> s0 s1 s2 px py pz qw qx qy qz }*n
                                                -> mass ipos[3] iquat[4] inertia[3] | `error` | `unsupported`
                                                   (geom Compile mass branch, InertiaFromGeom, body bounds)
+  ibody bm bi <balance> <fromgeom 0 false|1 true|2 auto> <glo> <ghi> stm
+        <explicit> mass <hasipos> ipx ipy ipz qw qx qy qz d0 d1 d2 <hasfull> f0 f1 f2 f3 f4 f5
+        <n> { <group> + the 14 geom tokens of `body` }*n
+                                               -> mass ipos[3] iquat[4] inertia[3] | `error` | `unsupported`
+                                                  (one static body with default frame: the inertial part of
+                                                  mjCBody::Compile = `bodyCompile` with compiler.boundmass bm,
+                                                  boundinertia bi, balanceinertia, inertiafromgeom,
+                                                  inertiagrouprange, then settotalmass stm = `applyTotalmass`;
+                                                  hasipos = 0 leaves ipos[0] NaN, hasfull = 0 leaves fullinertia[0] NaN)
   <kernel> tok...                              -> the generated user_util.cc kernel of that name (tokens as in
                                                   Drivers/Kernels.lean: float bits, `i<int>`)
 Malformed lines are answered with `bad-op`.  `type` is the mjtGeom code (2 sphere, 3 capsule, 4 ellipsoid,
@@ -74,6 +83,55 @@ def bodyOp (n : String) (ws : List String) : String :=
           | .ok b => showBody b
   | _, _ => "bad-op"
 
+def chunks15 : List String → Option (List (List String))
+  | [] => some []
+  | a :: b :: c :: d :: e :: f :: g :: h :: i :: j :: k :: l :: m :: n :: o :: rest =>
+    (chunks15 rest).map (fun r => [a, b, c, d, e, f, g, h, i, j, k, l, m, n, o] :: r)
+  | _ => none
+
+/-- `<group>` + 14 geom tokens -/
+def geomIn? (ws : List String) : Option (Option (GeomIn Float)) :=
+  match ws with
+  | grp :: rest =>
+    match grp.toInt?, geom? rest with
+    | some gi, some (some g) => if grp.startsWith "+" then none else some (some ⟨gi, g⟩)
+    | some _, some none => some none
+    | _, _ => none
+  | [] => none
+
+def fromgeom? (s : String) : Option FromGeom :=
+  if s == "0" then some .no else if s == "1" then some .yes else if s == "2" then some .auto else none
+
+def int? (s : String) : Option Int := if s.startsWith "+" then none else s.toInt?
+
+def ibodyOp (ws : List String) : String :=
+  match ws with
+  | bm :: bi :: bal :: ifg :: glo :: ghi :: stm :: expl :: mass :: hasipos :: ipx :: ipy :: ipz :: qw :: qx :: qy :: qz ::
+    d0 :: d1 :: d2 :: hasfull :: f0 :: f1 :: f2 :: f3 :: f4 :: f5 :: n :: rest =>
+    match ([bm, bi, stm, mass, ipx, ipy, ipz, qw, qx, qy, qz, d0, d1, d2, f0, f1, f2, f3, f4, f5].mapM fl? : Option (List Float)),
+          bool01? bal, fromgeom? ifg, int? glo, int? ghi, bool01? expl, bool01? hasipos, bool01? hasfull, n.toNat?, chunks15 rest with
+    | some [bm, bi, stm, mass, ipx, ipy, ipz, qw, qx, qy, qz, d0, d1, d2, f0, f1, f2, f3, f4, f5],
+      some bal, some ifg, some glo, some ghi, some expl, some hasipos, some hasfull, some n, some cs =>
+      if cs.length ≠ n ∨ n > 64 then "bad-op" else
+      match cs.mapM geomIn? with
+      | none => "bad-op"
+      | some gs =>
+        match gs.mapM id with
+        | none => "unsupported"
+        | some gs =>
+          let o : MassOpts Float := ⟨bm, bi, bal, ifg, glo, ghi⟩
+          let sp : BodyInertial Float :=
+            ⟨mass, if hasipos then some ⟨ipx, ipy, ipz⟩ else none, ⟨qw, qx, qy, qz⟩, ⟨d0, d1, d2⟩,
+             if hasfull then some ⟨f0, f1, f2, f3, f4, f5⟩ else none, expl⟩
+          match bodyCompile o ⟨0.0, 0.0, 0.0⟩ ⟨1.0, 0.0, 0.0, 0.0⟩ sp gs with
+          | .error _ => "error"
+          | .ok b =>
+            match applyTotalmass stm [b] with
+            | [b] => showBody b
+            | _ => "error"
+    | _, _, _, _, _, _, _, _, _, _ => "bad-op"
+  | _ => "bad-op"
+
 def step (line : String) : String :=
   match words line with
   | ["vol", t, sh, s0, s1, s2] =>
@@ -92,6 +150,7 @@ def step (line : String) : String :=
       | .ok b => showV3 b.inertia
     | _, _, _, _, _, _ => "bad-op"
   | "body" :: n :: ws => bodyOp n ws
+  | "ibody" :: ws => ibodyOp ws
   | name :: toks =>
     match toks.mapM GenUU.parseTok with
     | some xs =>
